@@ -161,4 +161,793 @@ theorem noTL_append_one (acc : List Fut) (g : Fut) : Fut.noTL (acc ++ [g]) = (Fu
   | nil => simp [Fut.noTL]
   | cons a acc ih => simp [Fut.noTL, ih, Bool.and_assoc]
 
+/-! ### builders create fresh ids -/
+
+theorem GoodIds.fresh_out {F : List Nat} {S : Store} (h : GoodIds F S) (p : Path) :
+    GoodIds (S.nextId :: F) { S with nextId := S.nextId + 1, outstanding := S.outstanding ++ [(S.nextId, p)] } := by
+  refine ⟨List.nodup_cons.mpr ⟨fun hm => ?_, h.1⟩, fun id hid => ?_⟩
+  · have := (h.2 _ hm).1; omega
+  · rcases List.mem_cons.mp hid with rfl | hid
+    · exact ⟨by simp, Or.inr (by simp [outIds])⟩
+    · obtain ⟨h1, h2⟩ := h.2 id hid
+      refine ⟨by simp; omega, ?_⟩
+      rcases h2 with h2 | h2
+      · exact Or.inl h2
+      · exact Or.inr (by simp only [outIds, List.map_append, List.mem_append]; exact Or.inl h2)
+
+theorem GoodIds.fresh_chan {F : List Nat} {S : Store} (h : GoodIds F S) :
+    GoodIds (S.nextId :: F) { S with nextId := S.nextId + 1, chan := S.chan ++ [S.nextId] } := by
+  refine ⟨List.nodup_cons.mpr ⟨fun hm => ?_, h.1⟩, fun id hid => ?_⟩
+  · have := (h.2 _ hm).1; omega
+  · rcases List.mem_cons.mp hid with rfl | hid
+    · exact ⟨by simp, Or.inl (by simp)⟩
+    · obtain ⟨h1, h2⟩ := h.2 id hid
+      refine ⟨by simp; omega, ?_⟩
+      rcases h2 with h2 | h2
+      · exact Or.inl (by simp [h2])
+      · exact Or.inr h2
+
+theorem execField_ids (nn : Bool) (mode : Mode) (rerr : Option String) (c : Comp) (itemPath : Path)
+    (completed : Store → Fut × Store) (S : Store)
+    (hc : ∀ S' F, GoodIds F S' → GoodIds ((completed S').1.waits ++ F) (completed S').2 ∧ (completed S').1.noT = true) :
+    ∀ F, GoodIds F S →
+      GoodIds ((execField nn mode rerr c itemPath completed S).1.waits ++ F) (execField nn mode rerr c itemPath completed S).2 ∧
+      (execField nn mode rerr c itemPath completed S).1.noT = true := by
+  intro F hF
+  have h0 : GoodIds F (S.push (.start itemPath)) := hF.same (SameIds.push _ _)
+  unfold execField
+  cases mode <;> cases rerr <;> simp only [Fut.waits, Fut.noT, List.nil_append, List.singleton_append, and_true]
+  · exact hc _ F h0
+  · exact h0
+  · exact h0.fresh_out itemPath
+  · exact h0.fresh_out itemPath
+  · exact (h0.same (SameIds.push _ (.fulfil itemPath))).fresh_chan
+  · exact (h0.same (SameIds.push _ (.fulfil itemPath))).fresh_chan
+  · exact hc _ F h0
+  · exact h0
+
+theorem perm_swap3 (A B C : List Nat) : (A ++ (B ++ C)).Perm (B ++ (A ++ C)) := by
+  rw [← List.append_assoc, ← List.append_assoc]
+  exact List.Perm.append_right C List.perm_append_comm
+
+theorem complete_ids_aux :
+    (∀ nn c path S, ∀ F, GoodIds F S →
+      GoodIds ((complete nn c path S).1.waits ++ F) (complete nn c path S).2 ∧ (complete nn c path S).1.noT = true) ∧
+    (∀ fields path n i acc S, ∀ F, Fut.noTL acc = true → GoodIds (Fut.waitsL acc ++ F) S →
+      GoodIds ((execFields fields path n i acc S).1.waits ++ F) (execFields fields path n i acc S).2 ∧
+      (execFields fields path n i acc S).1.noT = true) ∧
+    (∀ inn items path i S, ∀ F, GoodIds F S →
+      GoodIds (Fut.waitsL (completeItems inn items path i S).1 ++ F) (completeItems inn items path i S).2 ∧
+      Fut.noTL (completeItems inn items path i S).1 = true) := by
+  apply complete.mutual_induct
+    (motive_1 := fun nn c path S => ∀ F, GoodIds F S →
+      GoodIds ((complete nn c path S).1.waits ++ F) (complete nn c path S).2 ∧ (complete nn c path S).1.noT = true)
+    (motive_2 := fun fields path n i acc S => ∀ F, Fut.noTL acc = true → GoodIds (Fut.waitsL acc ++ F) S →
+      GoodIds ((execFields fields path n i acc S).1.waits ++ F) (execFields fields path n i acc S).2 ∧
+      (execFields fields path n i acc S).1.noT = true)
+    (motive_3 := fun inn items path i S => ∀ F, GoodIds F S →
+      GoodIds (Fut.waitsL (completeItems inn items path i S).1 ++ F) (completeItems inn items path i S).2 ∧
+      Fut.noTL (completeItems inn items path i S).1 = true)
+  · intro nn path S F hF; simp only [complete, nonNullWrap_waits, Fut.waits, List.nil_append]
+    exact ⟨hF.same (nonNullWrap_same _ _ _ _), nonNullWrap_noT _ _ _ _ (by simp [Fut.noT])⟩
+  · intro nn path S a F hF; simp only [complete, nonNullWrap_waits, Fut.waits, List.nil_append]
+    exact ⟨hF.same (nonNullWrap_same _ _ _ _), nonNullWrap_noT _ _ _ _ (by simp [Fut.noT])⟩
+  · intro nn path S a F hF; simp only [complete, nonNullWrap_waits, Fut.waits, List.nil_append]
+    exact ⟨hF.same (nonNullWrap_same _ _ _ _), nonNullWrap_noT _ _ _ _ (by simp [Fut.noT])⟩
+  · intro nn path S inn items fs S1 h ih F hF
+    have ih := ih F hF; rw [h] at ih
+    simp only [complete, h, nonNullWrap_waits, mkMapOkToAny_waits]
+    exact ⟨(ih.1.sublist (List.Sublist.append_right (mkJoin_waits fs) F)).same (nonNullWrap_same _ _ _ _),
+      nonNullWrap_noT _ _ _ _ (mkMapOkToAny_noT _ (mkJoin_noT _ ih.2))⟩
+  · intro nn path S fields f S1 h ih F hF
+    have ih := ih F (by simp [Fut.noTL]) (by simpa [Fut.waitsL] using hF); rw [h] at ih
+    simp only [complete, h, nonNullWrap_waits, mkMapOkToAny_waits]
+    exact ⟨ih.1.same (nonNullWrap_same _ _ _ _), nonNullWrap_noT _ _ _ _ (mkMapOkToAny_noT _ ih.2)⟩
+  · intro inn path i S F hF; simp only [completeItems, Fut.waitsL, Fut.noTL, List.nil_append]; exact ⟨hF, trivial⟩
+  · intro inn path i S c rest f S1 h1 f1 S11 h2 fs S2 h3 ih1 ih2 F hF
+    have ih1 := ih1 F hF; rw [h1] at ih1
+    have hw := catchIfNullable_waits inn f S1
+    have hs := catchIfNullable_same inn f S1
+    have hn := catchIfNullable_noT inn f S1 ih1.2
+    rw [h2] at hw hs hn
+    have ih2 := ih2 (f1.waits ++ F) (by rw [hw]; exact ih1.1.same hs); rw [h3] at ih2
+    simp only [completeItems, h1, h2, h3, Fut.waitsL, Fut.noTL]
+    refine ⟨?_, by simp [hn, ih2.2]⟩
+    rw [List.append_assoc]
+    exact ih2.1.perm (perm_swap3 _ _ _)
+  · intro path n i acc S F hacc hF
+    simp only [execFields, mkMapOkValue_waits]
+    exact ⟨hF.sublist (List.Sublist.append_right (mkAfter_waits acc) F),
+      mkMapOkValue_noT _ _ (mkAfter_noT _ hacc)⟩
+  · intro path n i acc S key nn rerr c rest ih F hacc hF
+    rw [execFields_tname]; exact ih F hacc (hF.same (SameIds.push _ _))
+  · intro path n i acc S key nn mode rerr c rest itemPath f S1 h1 S11 e hm h2 ihc F hacc hF
+    have hm' : mode ≠ .tname := fun h => hm h
+    have hf := execField_ids nn mode rerr c itemPath (fun S' => complete nn c itemPath S') S ihc _ hF
+    rw [h1] at hf
+    have hs := catchIfNullable_same nn f S1
+    rw [h2] at hs
+    rw [execFields_cons path key nn mode rerr c rest n i acc S S1 S11 f _ hm' h1 h2]
+    simp only [fieldCont, Fut.waits, Fut.noT, List.nil_append, and_true]
+    exact (hf.1.same hs).sublist ((List.sublist_append_right _ _).trans (List.sublist_append_right _ _))
+  · intro path n i acc S key nn mode rerr c rest itemPath f S1 h1 S11 v hm h2 ihc ih F hacc hF
+    have hm' : mode ≠ .tname := fun h => hm h
+    have hf := execField_ids nn mode rerr c itemPath (fun S' => complete nn c itemPath S') S ihc _ hF
+    rw [h1] at hf
+    have hs := catchIfNullable_same nn f S1
+    rw [h2] at hs
+    rw [execFields_cons path key nn mode rerr c rest n i acc S S1 S11 f _ hm' h1 h2]
+    simp only [fieldCont]
+    exact ih F hacc (((hf.1.same hs).sublist (List.sublist_append_right _ _)).same (SameIds.push _ _))
+  · intro path n i acc S key nn mode rerr c rest itemPath f S1 h1 S11 f1 hne hno hm h2 ihc ih F hacc hF
+    have hm' : mode ≠ .tname := fun h => hm h
+    have hf := execField_ids nn mode rerr c itemPath (fun S' => complete nn c itemPath S') S ihc _ hF
+    rw [h1] at hf
+    have hw := catchIfNullable_waits nn f S1
+    have hs := catchIfNullable_same nn f S1
+    have hn := catchIfNullable_noT nn f S1 hf.2
+    rw [h2] at hw hs hn
+    rw [execFields_cons path key nn mode rerr c rest n i acc S S1 S11 f f1 hm' h1 h2]
+    have hshape : fieldCont rest path n i acc key f1 S11 =
+        execFields rest path n (i + 1) (acc ++ [Fut.mapOk (OkFn.setSlot path i key) f1]) S11 := by
+      unfold fieldCont
+      split
+      · exact absurd rfl (hne _)
+      · exact absurd rfl (hno _)
+      · rfl
+    rw [hshape]
+    refine ih F (by rw [noTL_append_one]; simp [hacc, Fut.noT, hn]) ?_
+    rw [waitsL_append_one]
+    simp only [Fut.waits, List.append_assoc]
+    have := (hf.1.same hs)
+    rw [← hw] at this
+    exact this.perm (perm_swap3 _ _ _)
+
+theorem applyK_ids (nn : Bool) (c : Comp) (path : Path) (r : Res) (S : Store) (F : List Nat) (hF : GoodIds F S) :
+    GoodIds ((applyK nn c path r S).1.waits ++ F) (applyK nn c path r S).2 ∧ (applyK nn c path r S).1.noT = true := by
+  cases r with
+  | ok v => simp only [applyK]; exact complete_ids_aux.1 nn c path S F hF
+  | err e => simp only [applyK, Fut.waits, Fut.noT, List.nil_append]; exact ⟨hF, trivial⟩
+
+/-! ### poll -/
+
+theorem outIds_mono {S S' : Store} (h : Mono S S') {id : Nat} (hid : id ∈ outIds S) : id ∈ outIds S' := by
+  obtain ⟨o, ho⟩ := h.out
+  simp only [outIds, ho, List.map_append, List.mem_append]; exact Or.inl hid
+
+/-- `poll` keeps the waited-on ids good, and when it reports no result some promise is still
+    outstanding (nothing is ever waiting on a channel nobody will write to). -/
+theorem poll_ids_aux :
+    (∀ f S, f.noT = true → ∀ F, GoodIds (f.waits ++ F) S →
+      (poll f S).1.noT = true ∧ GoodIds ((poll f S).1.waits ++ F) (poll f S).2.1 ∧
+      ((poll f S).2.2 = none → ∃ id, id ∈ outIds (poll f S).2.1)) ∧
+    (∀ fs S, Fut.noTL fs = true → ∀ F, GoodIds (Fut.waitsL fs ++ F) S →
+      Fut.noTL (pollAll fs S).1 = true ∧ GoodIds (Fut.waitsL (pollAll fs S).1 ++ F) (pollAll fs S).2.1 ∧
+      ((pollAll fs S).2.2 = .pending → ∃ id, id ∈ outIds (pollAll fs S).2.1)) := by
+  apply poll_induct'
+    (P1 := fun f S => f.noT = true → ∀ F, GoodIds (f.waits ++ F) S →
+      (poll f S).1.noT = true ∧ GoodIds ((poll f S).1.waits ++ F) (poll f S).2.1 ∧
+      ((poll f S).2.2 = none → ∃ id, id ∈ outIds (poll f S).2.1))
+    (P2 := fun fs S => Fut.noTL fs = true → ∀ F, GoodIds (Fut.waitsL fs ++ F) S →
+      Fut.noTL (pollAll fs S).1 = true ∧ GoodIds (Fut.waitsL (pollAll fs S).1 ++ F) (pollAll fs S).2.1 ∧
+      ((pollAll fs S).2.2 = .pending → ∃ id, id ∈ outIds (pollAll fs S).2.1))
+  · intro r S _ F hF; rw [poll_ready]; exact ⟨by simp [Fut.noT], hF, fun h => by cases h⟩
+  · intro id res S _ F hF
+    simp only [Fut.waits, List.singleton_append] at hF
+    by_cases h : id ∈ S.chan <;> simp only [poll, h, if_true, if_false]
+    · refine ⟨by simp [Fut.noT], ?_, fun h => by cases h⟩
+      simp only [Fut.waits, List.nil_append]
+      obtain ⟨hnd, hall⟩ := hF
+      obtain ⟨hnotin, hndF⟩ := List.nodup_cons.mp hnd
+      refine ⟨hndF, fun id' hid' => ?_⟩
+      obtain ⟨h1, h2⟩ := hall id' (List.mem_cons_of_mem _ hid')
+      refine ⟨h1, ?_⟩
+      rcases h2 with h2 | h2
+      · exact Or.inl ((List.mem_erase_of_ne (by rintro rfl; exact hnotin hid')).mpr h2)
+      · exact Or.inr h2
+    · refine ⟨by simp [Fut.noT], by simpa [Fut.waits] using hF, fun _ => ⟨id, ?_⟩⟩
+      rcases (hF.2 id List.mem_cons_self).2 with h2 | h2
+      · exact absurd h2 h
+      · exact h2
+  · intro fn g S ih hn F hF
+    obtain ⟨i1, i2, i3⟩ := ih (by simpa [Fut.noT] using hn) F (by simpa [Fut.waits] using hF)
+    rcases hp : poll g S with ⟨g', S1, o⟩
+    rw [hp] at i1 i2 i3
+    cases o with
+    | some r =>
+      rw [poll_map_some hp]
+      have hr := poll_some_ready g S g' S1 r hp
+      simp only [hr, Fut.waits, List.nil_append] at i2
+      exact ⟨by simp [Fut.noT], by simpa [Fut.waits] using i2.same (applyMap_same _ _ _), fun h => by cases h⟩
+    | none => rw [poll_map_none hp]; exact ⟨by simpa [Fut.noT] using i1, by simpa [Fut.waits] using i2, fun _ => i3 rfl⟩
+  · intro fn g S ih hn F hF
+    obtain ⟨i1, i2, i3⟩ := ih (by simpa [Fut.noT] using hn) F (by simpa [Fut.waits] using hF)
+    rcases hp : poll g S with ⟨g', S1, o⟩
+    rw [hp] at i1 i2 i3
+    cases o with
+    | some r =>
+      have hr := poll_some_ready g S g' S1 r hp
+      simp only [hr, Fut.waits, List.nil_append] at i2
+      cases r with
+      | ok v =>
+        rw [poll_mapOk_ok hp]
+        exact ⟨by simp [Fut.noT], by simpa [Fut.waits] using i2.same (applyOk_same _ _ _), fun h => by cases h⟩
+      | err e => rw [poll_mapOk_err hp]; exact ⟨by simp [Fut.noT], by simpa [Fut.waits] using i2, fun h => by cases h⟩
+    | none => rw [poll_mapOk_none hp]; exact ⟨by simpa [Fut.noT] using i1, by simpa [Fut.waits] using i2, fun _ => i3 rfl⟩
+  · intro g S ih hn F hF
+    obtain ⟨i1, i2, i3⟩ := ih (by simpa [Fut.noT] using hn) F (by simpa [Fut.waits] using hF)
+    rcases hp : poll g S with ⟨g', S1, o⟩
+    rw [hp] at i1 i2 i3
+    cases o with
+    | some r =>
+      rw [poll_mapOkToAny_some hp]
+      have hr := poll_some_ready g S g' S1 r hp
+      simp only [hr, Fut.waits, List.nil_append] at i2
+      exact ⟨by simp [Fut.noT], by simpa [Fut.waits] using i2, fun h => by cases h⟩
+    | none => rw [poll_mapOkToAny_none hp]; exact ⟨by simpa [Fut.noT] using i1, by simpa [Fut.waits] using i2, fun _ => i3 rfl⟩
+  · intro v g S ih hn F hF
+    obtain ⟨i1, i2, i3⟩ := ih (by simpa [Fut.noT] using hn) F (by simpa [Fut.waits] using hF)
+    rcases hp : poll g S with ⟨g', S1, o⟩
+    rw [hp] at i1 i2 i3
+    cases o with
+    | some r =>
+      have hr := poll_some_ready g S g' S1 r hp
+      simp only [hr, Fut.waits, List.nil_append] at i2
+      cases r with
+      | ok u => rw [poll_mapOkValue_ok hp]; exact ⟨by simp [Fut.noT], by simpa [Fut.waits] using i2, fun h => by cases h⟩
+      | err e => rw [poll_mapOkValue_err hp]; exact ⟨by simp [Fut.noT], by simpa [Fut.waits] using i2, fun h => by cases h⟩
+    | none => rw [poll_mapOkValue_none hp]; exact ⟨by simpa [Fut.noT] using i1, by simpa [Fut.waits] using i2, fun _ => i3 rfl⟩
+  · intro nn c path g S ih ihk hn F hF
+    obtain ⟨i1, i2, i3⟩ := ih (by simpa [Fut.noT] using hn) F (by simpa [Fut.waits] using hF)
+    rcases hp : poll g S with ⟨g', S1, o⟩
+    rw [hp] at i1 i2 i3
+    cases o with
+    | none =>
+      rw [poll_thenK_wait hp]
+      exact ⟨by simpa [Fut.noT] using i1, by simpa [Fut.waits] using i2, fun _ => i3 rfl⟩
+    | some r =>
+      have hr := poll_some_ready g S g' S1 r hp
+      simp only [hr, Fut.waits, List.nil_append] at i2
+      have hk := applyK_ids nn c path r S1 F i2
+      obtain ⟨k1, k2, k3⟩ := ihk g' S1 r hp hk.2 F hk.1
+      rcases hp2 : poll (applyK nn c path r S1).1 (applyK nn c path r S1).2 with ⟨t', S3, o2⟩
+      rw [hp2] at k1 k2 k3
+      cases o2 with
+      | some r' =>
+        rw [poll_thenK_fire_some hp hp2]
+        have hr2 := poll_some_ready _ _ t' S3 r' hp2
+        simp only [hr2, Fut.waits, List.nil_append] at k2
+        exact ⟨by simp [Fut.noT], by simpa [Fut.waits] using k2, fun h => by cases h⟩
+      | none =>
+        rw [poll_thenK_fire_none hp hp2]
+        exact ⟨by simp [Fut.noT, hr, k1], by simpa [Fut.waits] using k2, fun _ => k3 rfl⟩
+  · intro nn c path g t S ih hn F hF
+    simp only [Fut.noT, Bool.and_eq_true] at hn
+    obtain ⟨i1, i2, i3⟩ := ih hn.2 F (by simpa [Fut.waits] using hF)
+    rcases hp : poll t S with ⟨t', S1, o⟩
+    rw [hp] at i1 i2 i3
+    cases o with
+    | some r =>
+      rw [poll_thenK_cont_some hp]
+      have hr := poll_some_ready t S t' S1 r hp
+      simp only [hr, Fut.waits, List.nil_append] at i2
+      exact ⟨by simp [Fut.noT], by simpa [Fut.waits] using i2, fun h => by cases h⟩
+    | none =>
+      rw [poll_thenK_cont_none hp]
+      exact ⟨by simp [Fut.noT, hn.1, i1], by simpa [Fut.waits] using i2, fun _ => i3 rfl⟩
+  · intro tag a b g S _ _ hn; simp [Fut.noT] at hn
+  · intro tag a b g t S _ hn; simp [Fut.noT] at hn
+  · intro fs S ih hn F hF
+    obtain ⟨i1, i2, i3⟩ := ih (by simpa [Fut.noT] using hn) F (by simpa [Fut.waits] using hF)
+    rcases hp : pollAll fs S with ⟨fs', S1, p⟩
+    rw [hp] at i1 i2 i3
+    cases p with
+    | failed e =>
+      rw [poll_join_failed hp]
+      exact ⟨by simp [Fut.noT], by simpa [Fut.waits] using i2.sublist (List.sublist_append_right _ _), fun h => by cases h⟩
+    | done vs =>
+      rw [poll_join_done hp]
+      exact ⟨by simp [Fut.noT], by simpa [Fut.waits] using i2.sublist (List.sublist_append_right _ _), fun h => by cases h⟩
+    | pending => rw [poll_join_pending hp]; exact ⟨by simpa [Fut.noT] using i1, by simpa [Fut.waits] using i2, fun _ => i3 rfl⟩
+  · intro fs S ih hn F hF
+    obtain ⟨i1, i2, i3⟩ := ih (by simpa [Fut.noT] using hn) F (by simpa [Fut.waits] using hF)
+    rcases hp : pollAll fs S with ⟨fs', S1, p⟩
+    rw [hp] at i1 i2 i3
+    cases p with
+    | failed e =>
+      rw [poll_after_failed hp]
+      exact ⟨by simp [Fut.noT], by simpa [Fut.waits] using i2.sublist (List.sublist_append_right _ _), fun h => by cases h⟩
+    | done vs =>
+      rw [poll_after_done hp]
+      exact ⟨by simp [Fut.noT], by simpa [Fut.waits] using i2.sublist (List.sublist_append_right _ _), fun h => by cases h⟩
+    | pending => rw [poll_after_pending hp]; exact ⟨by simpa [Fut.noT] using i1, by simpa [Fut.waits] using i2, fun _ => i3 rfl⟩
+  · intro S _ F hF; rw [pollAll_nil]; exact ⟨by simp [Fut.noTL], hF, fun h => by cases h⟩
+  · intro f rest S ih ihr hn F hF
+    simp only [Fut.noTL, Bool.and_eq_true] at hn
+    simp only [Fut.waitsL, List.append_assoc] at hF
+    obtain ⟨i1, i2, i3⟩ := ih hn.1 (Fut.waitsL rest ++ F) hF
+    rcases hp : poll f S with ⟨f', S1, o⟩
+    rw [hp] at i1 i2 i3
+    cases o with
+    | some r =>
+      cases r with
+      | err e =>
+        rw [pollAll_cons_err hp]
+        exact ⟨by simp [Fut.noTL, i1, hn.2], by simpa [Fut.waitsL, List.append_assoc] using i2, fun h => by cases h⟩
+      | ok v =>
+        obtain ⟨r1, r2, r3⟩ := ihr f' S1 _ hp (by intro e h; cases h) hn.2 (f'.waits ++ F) (i2.perm (perm_swap3 _ _ _))
+        rcases hp2 : pollAll rest S1 with ⟨rest', S2, p⟩
+        rw [hp2] at r1 r2 r3
+        rw [pollAll_cons_ok hp hp2]
+        refine ⟨by simp [Fut.noTL, i1, r1], ?_, ?_⟩
+        · simp only [Fut.waitsL, List.append_assoc]; exact r2.perm (perm_swap3 _ _ _)
+        · intro hpend
+          cases p <;> simp at hpend
+          exact r3 rfl
+    | none =>
+      obtain ⟨r1, r2, r3⟩ := ihr f' S1 _ hp (by intro e h; cases h) hn.2 (f'.waits ++ F) (i2.perm (perm_swap3 _ _ _))
+      have hm := poll_mono_aux.2 rest S1
+      rcases hp2 : pollAll rest S1 with ⟨rest', S2, p⟩
+      rw [hp2] at r1 r2 r3 hm
+      rw [pollAll_cons_none hp hp2]
+      refine ⟨by simp [Fut.noTL, i1, r1], ?_, ?_⟩
+      · simp only [Fut.waitsL, List.append_assoc]; exact r2.perm (perm_swap3 _ _ _)
+      · intro _
+        obtain ⟨id, hid⟩ := i3 rfl
+        exact ⟨id, outIds_mono hm hid⟩
+
+/-! ## §B how many promises can still be created -/
+
+mutual
+  /-- Upper bound on the promises the continuations not yet built may create. -/
+  def Fut.potential : Fut → Nat
+    | .ready _ => 0
+    | .promise _ _ => 0
+    | .map _ g => g.potential
+    | .mapOk _ g => g.potential
+    | .mapOkToAny g => g.potential
+    | .mapOkValue _ g => g.potential
+    | .thenK _ c _ g none => g.potential + Comp.invocations c
+    | .thenK _ _ _ _ (some t) => t.potential
+    | .thenT _ _ _ _ _ => 0
+    | .join gs => Fut.potentialL gs
+    | .after gs => Fut.potentialL gs
+  def Fut.potentialL : List Fut → Nat
+    | [] => 0
+    | g :: gs => g.potential + Fut.potentialL gs
+end
+
+theorem mkMap_potential (fn : MapFn) (f : Fut) (S : Store) : (mkMap fn f S).1.potential ≤ f.potential := by
+  cases f <;> simp [mkMap, Fut.potential]
+
+theorem mkMapOkToAny_potential (f : Fut) : (mkMapOkToAny f).potential ≤ f.potential := by
+  cases f <;> simp [mkMapOkToAny, Fut.potential]
+
+theorem mkMapOkValue_potential (v : Val) (f : Fut) : (mkMapOkValue v f).potential ≤ f.potential := by
+  cases f with
+  | ready r => cases r <;> simp [mkMapOkValue, Fut.potential]
+  | _ => simp [mkMapOkValue, Fut.potential]
+
+theorem mkJoin_potential (fs : List Fut) : (mkJoin fs).potential ≤ Fut.potentialL fs := by
+  unfold mkJoin; split <;> simp [Fut.potential]
+
+theorem mkAfter_potential (fs : List Fut) : (mkAfter fs).potential ≤ Fut.potentialL fs := by
+  unfold mkAfter; split <;> simp [Fut.potential]
+
+theorem nonNullWrap_potential (nn : Bool) (path : Path) (f : Fut) (S : Store) :
+    (nonNullWrap nn path f S).1.potential ≤ f.potential := by
+  unfold nonNullWrap; cases nn <;> simp; exact mkMap_potential _ _ _
+
+theorem catchIfNullable_potential (nn : Bool) (f : Fut) (S : Store) :
+    (catchIfNullable nn f S).1.potential ≤ f.potential := by
+  unfold catchIfNullable; cases nn <;> simp; exact mkMap_potential _ _ _
+
+theorem potentialL_append_one (acc : List Fut) (g : Fut) :
+    Fut.potentialL (acc ++ [g]) = Fut.potentialL acc + g.potential := by
+  induction acc with
+  | nil => simp [Fut.potentialL]
+  | cons a acc ih => simp [Fut.potentialL, ih]; omega
+
+theorem execField_potential (nn : Bool) (mode : Mode) (rerr : Option String) (c : Comp) (itemPath : Path)
+    (completed : Store → Fut × Store) (S : Store)
+    (hc : ∀ S', (completed S').2.nextId + (completed S').1.potential ≤ S'.nextId + Comp.invocations c) :
+    (execField nn mode rerr c itemPath completed S).2.nextId + (execField nn mode rerr c itemPath completed S).1.potential
+      ≤ S.nextId + 1 + Comp.invocations c := by
+  unfold execField
+  cases mode <;> cases rerr <;> simp [Fut.potential, Store.push]
+  all_goals first
+    | omega
+    | (have := hc (S.push (.start itemPath)); simp [Store.push] at this; omega)
+
+theorem complete_potential_aux :
+    (∀ nn c path S, (complete nn c path S).2.nextId + (complete nn c path S).1.potential ≤ S.nextId + Comp.invocations c) ∧
+    (∀ fields path n i acc S,
+      (execFields fields path n i acc S).2.nextId + (execFields fields path n i acc S).1.potential
+        ≤ S.nextId + Fut.potentialL acc + Field.invocationsL fields) ∧
+    (∀ inn items path i S,
+      (completeItems inn items path i S).2.nextId + Fut.potentialL (completeItems inn items path i S).1
+        ≤ S.nextId + Comp.invocationsL items) := by
+  apply complete.mutual_induct
+    (motive_1 := fun nn c path S =>
+      (complete nn c path S).2.nextId + (complete nn c path S).1.potential ≤ S.nextId + Comp.invocations c)
+    (motive_2 := fun fields path n i acc S =>
+      (execFields fields path n i acc S).2.nextId + (execFields fields path n i acc S).1.potential
+        ≤ S.nextId + Fut.potentialL acc + Field.invocationsL fields)
+    (motive_3 := fun inn items path i S =>
+      (completeItems inn items path i S).2.nextId + Fut.potentialL (completeItems inn items path i S).1
+        ≤ S.nextId + Comp.invocationsL items)
+  · intro nn path S
+    have h1 := nonNullWrap_potential nn path (.ready (.ok .null)) S
+    have h2 := (nonNullWrap_same nn path (.ready (.ok .null)) S).2.2
+    simp only [complete, Comp.invocations, Fut.potential] at *; omega
+  · intro nn path S a
+    have h1 := nonNullWrap_potential nn path (.ready (.ok (.scalar a))) S
+    have h2 := (nonNullWrap_same nn path (.ready (.ok (.scalar a))) S).2.2
+    simp only [complete, Comp.invocations, Fut.potential] at *; omega
+  · intro nn path S a
+    have h1 := nonNullWrap_potential nn path (.ready (.err ⟨path, a⟩)) S
+    have h2 := (nonNullWrap_same nn path (.ready (.err ⟨path, a⟩)) S).2.2
+    simp only [complete, Comp.invocations, Fut.potential] at *; omega
+  · intro nn path S inn items fs S1 h ih
+    rw [h] at ih; simp only at ih
+    have h1 := nonNullWrap_potential nn path (mkMapOkToAny (mkJoin fs)) S1
+    have h2 := (nonNullWrap_same nn path (mkMapOkToAny (mkJoin fs)) S1).2.2
+    have h3 := mkMapOkToAny_potential (mkJoin fs)
+    have h4 := mkJoin_potential fs
+    simp only [complete, h, Comp.invocations]; omega
+  · intro nn path S fields f S1 h ih
+    rw [h] at ih; simp only [Fut.potentialL] at ih
+    have h1 := nonNullWrap_potential nn path (mkMapOkToAny f) S1
+    have h2 := (nonNullWrap_same nn path (mkMapOkToAny f) S1).2.2
+    have h3 := mkMapOkToAny_potential f
+    simp only [complete, h, Comp.invocations]; omega
+  · intro inn path i S; simp [completeItems, Fut.potentialL, Comp.invocationsL]
+  · intro inn path i S c rest f S1 h1 f1 S11 h2 fs S2 h3 ih1 ih2
+    rw [h1] at ih1; rw [h3] at ih2; simp only at ih1 ih2
+    have hc := catchIfNullable_potential inn f S1
+    have hs := (catchIfNullable_same inn f S1).2.2
+    rw [h2] at hc hs; simp only at hc hs
+    simp only [completeItems, h1, h2, h3, Fut.potentialL, Comp.invocationsL]; omega
+  · intro path n i acc S
+    have h1 := mkMapOkValue_potential (.obj path n) (mkAfter acc)
+    have h2 := mkAfter_potential acc
+    simp only [execFields, Field.invocationsL]; omega
+  · intro path n i acc S key nn rerr c rest ih
+    rw [execFields_tname]
+    simp only [Store.push, Field.invocationsL] at ih ⊢; omega
+  · intro path n i acc S key nn mode rerr c rest itemPath f S1 h1 S11 e hm h2 ihc
+    have hm' : mode ≠ .tname := fun h => hm h
+    have hf := execField_potential nn mode rerr c itemPath (fun S' => complete nn c itemPath S') S ihc
+    rw [h1] at hf; simp only at hf
+    have hs := (catchIfNullable_same nn f S1).2.2
+    rw [h2] at hs; simp only at hs
+    rw [execFields_cons path key nn mode rerr c rest n i acc S S1 S11 f _ hm' h1 h2]
+    simp only [fieldCont, Fut.potential, Field.invocationsL]; omega
+  · intro path n i acc S key nn mode rerr c rest itemPath f S1 h1 S11 v hm h2 ihc ih
+    have hm' : mode ≠ .tname := fun h => hm h
+    have hf := execField_potential nn mode rerr c itemPath (fun S' => complete nn c itemPath S') S ihc
+    rw [h1] at hf; simp only at hf
+    have hs := (catchIfNullable_same nn f S1).2.2
+    rw [h2] at hs; simp only at hs
+    rw [execFields_cons path key nn mode rerr c rest n i acc S S1 S11 f _ hm' h1 h2]
+    simp only [fieldCont, Store.push, Field.invocationsL] at ih ⊢; omega
+  · intro path n i acc S key nn mode rerr c rest itemPath f S1 h1 S11 f1 hne hno hm h2 ihc ih
+    have hm' : mode ≠ .tname := fun h => hm h
+    have hf := execField_potential nn mode rerr c itemPath (fun S' => complete nn c itemPath S') S ihc
+    rw [h1] at hf; simp only at hf
+    have hc := catchIfNullable_potential nn f S1
+    have hs := (catchIfNullable_same nn f S1).2.2
+    rw [h2] at hc hs; simp only at hc hs
+    rw [execFields_cons path key nn mode rerr c rest n i acc S S1 S11 f f1 hm' h1 h2]
+    have hshape : fieldCont rest path n i acc key f1 S11 =
+        execFields rest path n (i + 1) (acc ++ [Fut.mapOk (OkFn.setSlot path i key) f1]) S11 := by
+      unfold fieldCont
+      split
+      · exact absurd rfl (hne _)
+      · exact absurd rfl (hno _)
+      · rfl
+    rw [hshape]
+    rw [potentialL_append_one] at ih
+    simp only [Fut.potential, Field.invocationsL] at ih ⊢; omega
+
+theorem applyK_potential (nn : Bool) (c : Comp) (path : Path) (r : Res) (S : Store) :
+    (applyK nn c path r S).2.nextId + (applyK nn c path r S).1.potential ≤ S.nextId + Comp.invocations c := by
+  cases r with
+  | ok v => simp only [applyK]; exact complete_potential_aux.1 nn c path S
+  | err e => simp [applyK, Fut.potential]
+
+theorem poll_potential_aux :
+    (∀ f S, f.noT = true → (poll f S).2.1.nextId + (poll f S).1.potential ≤ S.nextId + f.potential) ∧
+    (∀ fs S, Fut.noTL fs = true →
+      (pollAll fs S).2.1.nextId + Fut.potentialL (pollAll fs S).1 ≤ S.nextId + Fut.potentialL fs) := by
+  apply poll_induct'
+    (P1 := fun f S => f.noT = true → (poll f S).2.1.nextId + (poll f S).1.potential ≤ S.nextId + f.potential)
+    (P2 := fun fs S => Fut.noTL fs = true →
+      (pollAll fs S).2.1.nextId + Fut.potentialL (pollAll fs S).1 ≤ S.nextId + Fut.potentialL fs)
+  · intro r S _; rw [poll_ready]; simp
+  · intro id res S _
+    by_cases h : id ∈ S.chan <;> simp [poll, h, Fut.potential]
+  · intro fn g S ih hn
+    have ih := ih (by simpa [Fut.noT] using hn)
+    rcases hp : poll g S with ⟨g', S1, o⟩
+    rw [hp] at ih
+    cases o with
+    | some r =>
+      rw [poll_map_some hp]
+      have := (applyMap_same fn r S1).2.2
+      simp only [Fut.potential] at ih ⊢; omega
+    | none => rw [poll_map_none hp]; simpa [Fut.potential] using ih
+  · intro fn g S ih hn
+    have ih := ih (by simpa [Fut.noT] using hn)
+    rcases hp : poll g S with ⟨g', S1, o⟩
+    rw [hp] at ih
+    cases o with
+    | some r =>
+      cases r with
+      | ok v =>
+        rw [poll_mapOk_ok hp]
+        have := (applyOk_same fn v S1).2.2
+        simp only [Fut.potential] at ih ⊢; omega
+      | err e => rw [poll_mapOk_err hp]; simp only [Fut.potential] at ih ⊢; omega
+    | none => rw [poll_mapOk_none hp]; simpa [Fut.potential] using ih
+  · intro g S ih hn
+    have ih := ih (by simpa [Fut.noT] using hn)
+    rcases hp : poll g S with ⟨g', S1, o⟩
+    rw [hp] at ih
+    cases o with
+    | some r => rw [poll_mapOkToAny_some hp]; simp only [Fut.potential] at ih ⊢; omega
+    | none => rw [poll_mapOkToAny_none hp]; simpa [Fut.potential] using ih
+  · intro v g S ih hn
+    have ih := ih (by simpa [Fut.noT] using hn)
+    rcases hp : poll g S with ⟨g', S1, o⟩
+    rw [hp] at ih
+    cases o with
+    | some r =>
+      cases r with
+      | ok u => rw [poll_mapOkValue_ok hp]; simp only [Fut.potential] at ih ⊢; omega
+      | err e => rw [poll_mapOkValue_err hp]; simp only [Fut.potential] at ih ⊢; omega
+    | none => rw [poll_mapOkValue_none hp]; simpa [Fut.potential] using ih
+  · intro nn c path g S ih ihk hn
+    have hgn : g.noT = true := by simpa [Fut.noT] using hn
+    have ih := ih hgn
+    rcases hp : poll g S with ⟨g', S1, o⟩
+    rw [hp] at ih
+    cases o with
+    | none => rw [poll_thenK_wait hp]; simp only [Fut.potential] at ih ⊢; omega
+    | some r =>
+      have hk := applyK_potential nn c path r S1
+      have hkn : (applyK nn c path r S1).1.noT = true := (applyK_ids nn c path r S1 [] ⟨List.nodup_nil, by simp⟩).2
+      have ihk := ihk g' S1 r hp hkn
+      rcases hp2 : poll (applyK nn c path r S1).1 (applyK nn c path r S1).2 with ⟨t', S3, o2⟩
+      rw [hp2] at ihk
+      cases o2 with
+      | some r' => rw [poll_thenK_fire_some hp hp2]; simp only [Fut.potential] at ih ihk ⊢; omega
+      | none => rw [poll_thenK_fire_none hp hp2]; simp only [Fut.potential] at ih ihk ⊢; omega
+  · intro nn c path g t S ih hn
+    simp only [Fut.noT, Bool.and_eq_true] at hn
+    have ih := ih hn.2
+    rcases hp : poll t S with ⟨t', S1, o⟩
+    rw [hp] at ih
+    cases o with
+    | some r => rw [poll_thenK_cont_some hp]; simp only [Fut.potential] at ih ⊢; omega
+    | none => rw [poll_thenK_cont_none hp]; simpa [Fut.potential] using ih
+  · intro tag a b g S _ _ hn; simp [Fut.noT] at hn
+  · intro tag a b g t S _ hn; simp [Fut.noT] at hn
+  · intro fs S ih hn
+    have ih := ih (by simpa [Fut.noT] using hn)
+    rcases hp : pollAll fs S with ⟨fs', S1, p⟩
+    rw [hp] at ih
+    cases p with
+    | failed e => rw [poll_join_failed hp]; simp only [Fut.potential] at ih ⊢; omega
+    | done vs => rw [poll_join_done hp]; simp only [Fut.potential] at ih ⊢; omega
+    | pending => rw [poll_join_pending hp]; simpa [Fut.potential] using ih
+  · intro fs S ih hn
+    have ih := ih (by simpa [Fut.noT] using hn)
+    rcases hp : pollAll fs S with ⟨fs', S1, p⟩
+    rw [hp] at ih
+    cases p with
+    | failed e => rw [poll_after_failed hp]; simp only [Fut.potential] at ih ⊢; omega
+    | done vs => rw [poll_after_done hp]; simp only [Fut.potential] at ih ⊢; omega
+    | pending => rw [poll_after_pending hp]; simpa [Fut.potential] using ih
+  · intro S _; rw [pollAll_nil]; simp
+  · intro f rest S ih ihr hn
+    simp only [Fut.noTL, Bool.and_eq_true] at hn
+    have ih := ih hn.1
+    rcases hp : poll f S with ⟨f', S1, o⟩
+    rw [hp] at ih
+    cases o with
+    | some r =>
+      cases r with
+      | err e => rw [pollAll_cons_err hp]; simp only [Fut.potentialL] at ih ⊢; omega
+      | ok v =>
+        have ihr := ihr f' S1 _ hp (by intro e h; cases h) hn.2
+        rcases hp2 : pollAll rest S1 with ⟨rest', S2, p⟩
+        rw [hp2] at ihr
+        rw [pollAll_cons_ok hp hp2]; simp only [Fut.potentialL] at ih ihr ⊢; omega
+    | none =>
+      have ihr := ihr f' S1 _ hp (by intro e h; cases h) hn.2
+      rcases hp2 : pollAll rest S1 with ⟨rest', S2, p⟩
+      rw [hp2] at ihr
+      rw [pollAll_cons_none hp hp2]; simp only [Fut.potentialL] at ih ihr ⊢; omega
+
+/-! ## §C `wait` returns -/
+
+theorem mem_fulfilled_or_kept {α : Type} (ps : List α) (bs : List Bool) (p : α) (h : p ∈ ps) :
+    p ∈ fulfilled ps bs ∨ p ∈ kept ps bs := by
+  induction ps generalizing bs with
+  | nil => simp at h
+  | cons q ps ih =>
+    cases bs with
+    | nil =>
+      simp only [kept, fulfilled]
+      rcases List.mem_cons.mp h with rfl | h
+      · exact Or.inr List.mem_cons_self
+      · rcases ih [] h with h | h
+        · cases ps <;> simp [fulfilled] at h
+        · exact Or.inr (List.mem_cons_of_mem _ h)
+    | cons b bs =>
+      cases b <;> simp only [kept, fulfilled, Bool.false_eq_true, if_false, if_true]
+      · rcases List.mem_cons.mp h with rfl | h
+        · exact Or.inr List.mem_cons_self
+        · rcases ih bs h with h | h
+          · exact Or.inl h
+          · exact Or.inr (List.mem_cons_of_mem _ h)
+      · rcases List.mem_cons.mp h with rfl | h
+        · exact Or.inl List.mem_cons_self
+        · rcases ih bs h with h | h
+          · exact Or.inl (List.mem_cons_of_mem _ h)
+          · exact Or.inr h
+
+theorem idleRound_ids (mask : Option Nat) (S : Store) (hne : S.outstanding ≠ []) (L : List Nat) (h : GoodIds L S) :
+    GoodIds L (idleRound mask S) := by
+  have hs := deliver_spec S.outstanding (picks mask S.outstanding.length)
+    { S with outstanding := [], rounds := S.rounds + 1 }
+  obtain ⟨h1, h2, _, _, h5, _⟩ := hs
+  refine ⟨h.1, fun id hid => ?_⟩
+  obtain ⟨a, b⟩ := h.2 id hid
+  unfold idleRound
+  simp only at h1 h2 h5 ⊢
+  refine ⟨by rw [h5]; exact a, ?_⟩
+  rcases b with b | b
+  · exact Or.inl (by rw [h2]; exact List.mem_append_left _ b)
+  · simp only [outIds] at b
+    obtain ⟨p, hp, rfl⟩ := List.mem_map.mp b
+    rcases mem_fulfilled_or_kept S.outstanding (picks mask S.outstanding.length) p hp with hq | hq
+    · exact Or.inl (by rw [h2]; exact List.mem_append_right _ (List.mem_map_of_mem hq))
+    · exact Or.inr (by simp only [outIds, h1, List.nil_append]; exact List.mem_map_of_mem hq)
+
+/-- **`wait` returns.** With good ids, the store invariant, and enough fuel for the promises that
+    can still exist, `waitLoop` ends with `done`; it created at most `f.potential` promises. -/
+theorem waitLoop_terminates (N : Nat) (fuel : Nat) : ∀ (f : Fut) (sched : List Nat) (S : Store),
+    f.noT = true → GoodIds f.waits S → Inv S → S.nextId + f.potential ≤ N → N < fuel + S.rounds →
+    ∃ r, (waitLoop fuel f sched S).1 = .done r ∧ (waitLoop fuel f sched S).2.2.nextId ≤ S.nextId + f.potential := by
+  induction fuel with
+  | zero =>
+    intro f sched S hn hg hi hb hf
+    obtain ⟨i1, i2, i3⟩ := poll_ids_aux.1 f S hn [] (by simpa using hg)
+    have hpot := poll_potential_aux.1 f S hn
+    have hm := poll_mono f S
+    rcases hp : poll f S with ⟨f', S1, o⟩
+    rw [hp] at i1 i2 i3 hpot hm
+    simp only at hm
+    cases o with
+    | some r => rw [waitLoop_some 0 f f' sched S S1 r hp]; exact ⟨r, rfl, by simp only at hpot ⊢; omega⟩
+    | none =>
+      obtain ⟨id, hid⟩ := i3 rfl
+      have hi1 := hm.inv hi
+      have hlen : 0 < S1.outstanding.length := by
+        simp only [outIds] at hid
+        cases h : S1.outstanding with
+        | nil => simp [h] at hid
+        | cons a l => simp
+      have := hm.rounds
+      simp only [Inv] at hi1
+      simp only at hpot
+      omega
+  | succ fuel ih =>
+    intro f sched S hn hg hi hb hf
+    obtain ⟨i1, i2, i3⟩ := poll_ids_aux.1 f S hn [] (by simpa using hg)
+    have hpot := poll_potential_aux.1 f S hn
+    have hm := poll_mono f S
+    rcases hp : poll f S with ⟨f', S1, o⟩
+    rw [hp] at i1 i2 i3 hpot hm
+    simp only at hpot hm
+    cases o with
+    | some r => rw [waitLoop_some (fuel + 1) f f' sched S S1 r hp]; exact ⟨r, rfl, by simp only; omega⟩
+    | none =>
+      obtain ⟨id, hid⟩ := i3 rfl
+      have hne : S1.outstanding ≠ [] := by
+        intro h; simp [outIds, h] at hid
+      rw [waitLoop_succ_none fuel f f' sched S S1 hp hne]
+      have hsp := idleRound_spec sched.head? S1 hne
+      have hg2 : GoodIds f'.waits (idleRound sched.head? S1) :=
+        idleRound_ids _ _ hne _ (by simpa using i2)
+      obtain ⟨r, hr, hb'⟩ := ih f' sched.tail (idleRound sched.head? S1) i1 hg2
+        (idleRound_inv _ _ hne (hm.inv hi)) (by rw [hsp.2.1]; omega) (by rw [hsp.1, hm.rounds]; omega)
+      exact ⟨r, hr, by rw [hsp.2.1] at hb'; omega⟩
+
+theorem GoodIds_nil (S : Store) : GoodIds [] S := ⟨List.nodup_nil, by simp⟩
+
+theorem execSerial_terminates (N fuel : Nat) (hfuel : N < fuel) :
+    ∀ (fields : List Field) (n i : Nat) (sched : List Nat) (S : Store),
+      Inv S → S.nextId + Field.invocationsL fields ≤ N →
+      ∃ r, (execSerial fuel fields n i sched S).1 = .done r := by
+  intro fields
+  induction fields with
+  | nil => intro n i sched S _ _; exact ⟨.ok (.obj [] n), by simp [execSerial]⟩
+  | cons fld rest ih =>
+    intro n i sched S hi hb
+    cases fld with
+    | mk key nn mode rerr c =>
+      simp only [Field.invocationsL] at hb
+      by_cases hm : mode = .tname
+      · subst hm
+        simp only [execSerial]
+        exact ih n (i + 1) sched _ ((Mono.push S _).inv hi) (by simp only [Store.push]; omega)
+      · rcases h1 : execField nn mode rerr c [.key key] (complete nn c [.key key]) S with ⟨f0, S1⟩
+        rcases h2 : catchIfNullable nn f0 S1 with ⟨f, S2⟩
+        have hmono : Mono S S2 := by
+          have a := execField_mono nn mode rerr c [.key key] (complete nn c [.key key]) S (fun S' => complete_mono _ _ _ _)
+          have b := catchIfNullable_mono nn f0 S1
+          rw [h1] at a; rw [h2] at b; exact a.trans b
+        have hids := execField_ids nn mode rerr c [.key key] (complete nn c [.key key]) S
+          (fun S' F hF => complete_ids_aux.1 nn c [.key key] S' F hF) [] (GoodIds_nil S)
+        rw [h1] at hids
+        have hw := catchIfNullable_waits nn f0 S1
+        have hs := catchIfNullable_same nn f0 S1
+        have hn := catchIfNullable_noT nn f0 S1 hids.2
+        rw [h2] at hw hs hn
+        have hgood : GoodIds f.waits S2 := by
+          have := hids.1.same hs
+          simpa [hw] using this
+        have hpot := execField_potential nn mode rerr c [.key key] (complete nn c [.key key]) S
+          (fun S' => complete_potential_aux.1 nn c [.key key] S')
+        rw [h1] at hpot
+        have hcp := catchIfNullable_potential nn f0 S1
+        rw [h2] at hcp
+        have hs3 := hs.2.2
+        simp only at hpot hcp hs3
+        obtain ⟨r, hr, hnext⟩ := waitLoop_terminates N fuel f sched S2 hn hgood (hmono.inv hi) (by omega) (by omega)
+        have hspec := waitLoop_spec fuel f sched S2 (hmono.inv hi) r hr
+        rw [execSerial_cons fuel key nn mode rerr c rest n i sched S S1 S2 f0 f hm h1 h2]
+        rcases hwl : waitLoop fuel f sched S2 with ⟨w, sched', S3⟩
+        rw [hwl] at hr hnext hspec
+        simp only at hr hnext hspec
+        subst hr
+        cases r with
+        | err e => exact ⟨.err e, by simp [serialCont]⟩
+        | ok v =>
+          simp only [serialCont]
+          exact ih n (i + 1) sched' _ ((Mono.push S3 _).inv hspec.2.1) (by simp only [Store.push]; omega)
+
+/-- **Termination.** For every request, async subset and schedule, execution returns: `wait` is
+    never stuck (a poll that reports nothing always leaves a promise outstanding for the idle
+    handler to fulfil) and the fuel — one more than the number of field invocations — is never
+    exhausted. -/
+theorem execute_terminates (rq : Request) : ∃ r, (execute rq).1 = .done r := by
+  unfold execute
+  by_cases hmut : rq.mutation = true
+  · simp only [hmut, if_true]
+    obtain ⟨r, hr⟩ := execSerial_terminates (Field.invocationsL rq.fields) (Field.invocationsL rq.fields + 1) (by omega)
+      rq.fields rq.fields.length 0 rq.sched {} Inv_init (by simp)
+    rcases hx : execSerial (Field.invocationsL rq.fields + 1) rq.fields rq.fields.length 0 rq.sched {} with ⟨w, s', S⟩
+    rw [hx] at hr; simp only at hr; subst hr
+    cases r <;> exact ⟨_, rfl⟩
+  · simp only [hmut, Bool.false_eq_true, if_false]
+    rcases hb : execFields rq.fields [] rq.fields.length 0 [] {} with ⟨f, S1⟩
+    have hm : Mono {} S1 := by
+      have := complete_mono_aux.2.1 rq.fields [] rq.fields.length 0 [] {}; rw [hb] at this; exact this
+    have hids := complete_ids_aux.2.1 rq.fields [] rq.fields.length 0 [] {} [] (by simp [Fut.noTL])
+      (by simpa [Fut.waitsL] using GoodIds_nil {})
+    have hpot := complete_potential_aux.2.1 rq.fields [] rq.fields.length 0 [] {}
+    rw [hb] at hids hpot
+    simp only [Fut.potentialL] at hpot
+    have hr0 := hm.rounds
+    obtain ⟨r, hr, _⟩ := waitLoop_terminates (Field.invocationsL rq.fields) (Field.invocationsL rq.fields + 1) f rq.sched S1
+      hids.2 (by simpa using hids.1) (hm.inv Inv_init) (by simp at hpot; omega) (by omega)
+    simp only
+    rcases hwl : waitLoop (Field.invocationsL rq.fields + 1) f rq.sched S1 with ⟨w, sched', S⟩
+    rw [hwl] at hr; simp only at hr; subst hr
+    cases r <;> exact ⟨_, rfl⟩
+
 end ApiFu.C02
